@@ -52,6 +52,8 @@ pub fn base_plan(profile: &str, seed: u64, g: Geometry) -> Plan {
         own_id: "-RD0001-verifsim0001".into(),
         tokio_seed: r.next_u64(),
         fs_yield_pm: 0,
+        // a third of all runs perturb the task schedule at channel operations
+        sched_yield_pm: *r.pick(&[0u32, 0, 0, 0, 30, 150, 400]),
         disk_fail_writes: vec![],
         disk_fail_reads: vec![],
         preexisting: vec![],
